@@ -35,6 +35,7 @@ def main(argv=None):
         prog = load(args.repo)
         an = Analyzer(prog)
         ctx = Ctx(prop, prog, an, args.tier, seed)
+        ctx.stats['wrappers_absorbed_by_the_loader'] = list(prog.absorbed)
         mod.run(ctx)
         if args.tier == 'thorough':
             if hasattr(mod, 'run_thorough'):
